@@ -88,12 +88,38 @@ pub fn run_case(ctx: &Ctx, case: &Case, counting: bool) -> PResult {
 	ops.extend(case.ops.iter().cloned());
 	for (i, op) in ops.iter().enumerate() {
 		match op {
-			Op::Reopen => cb.reopen().map_err(|e| Fail::new("reopen-failed", e))?,
+			Op::Reopen => {
+				let nrd = !w.nodes[head].model.nrd.is_empty();
+				if let Err(f) = cb.reopen_classified(nrd) {
+					if ctx.known_hit(&f.sig) {
+						return Ok(()); // listed finding: the node cannot restart, the case ends here
+					}
+					return Err(f);
+				}
+			}
 			Op::Block(raw) => {
 				let built = w.build(cb.c(), raw, head).map_err(|e| Fail::new("builder", format!("op {}: {}", i, e)))?;
 				let on_fork = built.parent != head;
 				let res = cb.c().process_block(built.block.clone(), opts(PowMode::Real));
 				let ctx_tag = if on_fork { "fork" } else { "main" };
+				if std::env::var("GV_DEBUG").is_ok() {
+					let hh = cb.c().header_head().unwrap();
+					let bh = cb.c().head().unwrap();
+					eprintln!(
+						"op {} block h={} parent_node={} (h={}) td={} verdict={:?} res={:?} -> head h={} td={} header_head h={} td={}",
+						i,
+						built.block.header.height,
+						built.parent,
+						w.nodes[built.parent].height(),
+						built.block.header.total_difficulty().to_num(),
+						built.verdict.as_ref().map(|_| ()).map_err(|e| format!("{:?}", e)),
+						res.as_ref().map(|t| t.is_some()).map_err(|e| err_name(e)),
+						bh.height,
+						bh.total_difficulty.to_num(),
+						hh.height,
+						hh.total_difficulty.to_num()
+					);
+				}
 				match (&built.verdict, &res) {
 					(Ok(m), Ok(tip)) => {
 						let n = w.push(&built, m.clone());
